@@ -85,6 +85,11 @@ def get_oracle(line, c_out):
     mode, ops, q, szxs = parse_get(line)
     want = gen_link.py_listing(ops, q)
     body, orc = split_oracle(c_out)
+    unk = [o[0] for o in ops if o[0] in ("U", "UG", "UW")]
+    if unk and unk[-1] == "UW":
+        # the application asked for the request with COAP_RESOURCE_HANDLE_WELLKNOWN_CORE: its
+        # unknown-resource GET handler (2.03 in the harness) answers, not the built-in listing
+        return None if c_out.strip() == "203" else "unknown-resource handler with the WELLKNOWN_CORE flag not asked: " + c_out[:60]
     if not body.startswith("205 "):
         return "response " + c_out[:60]
     if orc != "ok":
@@ -147,12 +152,12 @@ def parse_case(line):
 
     def b(x):
         return b"" if x == "-" else bytes.fromhex(x)
-    while i < len(t) and t[i] in ("R", "D", "U", "P", "M"):
+    while i < len(t) and t[i] in ("R", "D", "U", "UG", "UW", "P", "M"):
         if t[i] == "M":
             ops.append(("M", int(t[i + 1])))
             i += 2
             continue
-        if t[i] in ("U", "P"):
+        if t[i] in ("U", "UG", "UW", "P"):
             ops.append((t[i], None))
             i += 1
             continue
@@ -326,6 +331,15 @@ def gen_cases(run, r):
             # an application resource registered under .well-known/core takes the request itself
             # (the built-in handler is not called): not part of the GET cases
             gops = [o for o in ops if o[1] != gen_link.WK and o[0] in ("R", "D")]
+            # server configurations: no unknown-resource handler / PUT only / with a GET handler /
+            # with a GET handler and COAP_RESOURCE_HANDLE_WELLKNOWN_CORE (then it answers, 2.03)
+            u = r.random()
+            if u < 0.30:
+                gops = gops + [("UG", None)]
+            elif u < 0.40:
+                gops = [("U", None)] + gops
+            elif u < 0.46:
+                gops = gops + [("UW", None)]
             t = ["lfget", str(mode)] + gen_link.ops_tokens(gops) + ["F", "~" if q is None else gen_link.tok(q)]
             if q is not None and r.random() < 0.12:
                 t += ["F", gen_link.tok(r.choice([b"if=x", b"a", b"rt=temp*", b"&", b"x=%41"]))]
